@@ -685,7 +685,8 @@ func (t *Table) IndexesDescription() ([]types.GlobalSecondaryIndexDescription, [
 	gsi := []types.GlobalSecondaryIndexDescription{}
 	lsi := []types.LocalSecondaryIndexDescription{}
 
-	for indexName, index := range t.Indexes {
+	for name, index := range t.Indexes {
+		indexName := name
 		schema := index.keySchema.describe()
 		count := index.count()
 
